@@ -54,6 +54,21 @@ def make_cases(rng, tier, budget):
             c3["history"] = c3["history"] + [["build", vers, root], ["build", ok[1], ok[2]]]
             c3["tag"] = {"nested_raise_in": f, "at": k}
             out.append(c3)
+    # a directory the previous build created, replaced by a foreign regular file, overwritten by a
+    # build_file of the failing build (the undo must restore the file before it re-creates old directories)
+    for i in range((4 if tier == "quick" else 30) * budget):
+        D = [rng.choice(gen.NAMES[:4]) + "D"]
+        deep = rng.random() < 0.4
+        first = D + (["m", "a"] if deep else ["a"])
+        funcs = {"w": {"*": [["write", ["lit", "x"]], ["ret", ["lit", 0]]]},
+                 "over": {"*": rng.choice([[["write", ["lit", "new"]], ["ret", ["lit", 1]]], [["write", ["lit", "new"]], ["raise", 1]]])}}
+        at = D + ["m"] if deep and rng.random() < 0.5 else D
+        root1 = [["build_file", "a", first, "METADATA", "w", [], {}], ["ret", ["lit", 0]]]
+        bad = [["build_file", "b", at, "METADATA", "over", [], {}], ["reraise", "b"], ["raise", 9]]
+        good = [["build_file", "b", at, "METADATA", "w", [], {}], ["ret", ["lit", 0]]]
+        hist = [["build", {}, root1], ["mutate", [["rmtree", at], ["write", at, "foreign-where-a-directory-was"]]],
+                ["build", {}, bad], ["build", {}, good]]
+        out.append({"cache": ["cache"], "name": "n", "funcs": funcs, "history": hist, "tag": {"raise_point": -1, "of": 0, "swap": True}})
     # "... or while the cache file is being written": a fault at the open / write of the cache file of
     # a first build (no previous cache) and of a later build
     import shutil
